@@ -2,7 +2,7 @@
 import re
 
 from cfg import cfg_of
-from expr import Exprs, fmt
+from expr import Exprs, fmt, contains
 from mirutil import is_call, result_fate, returns_result, try_sites, error_blocks, for_loops
 from framework import site_of
 import callgraph as cgmod
@@ -36,8 +36,11 @@ def run(F, rep):
         if not f.key.startswith(arch):
             continue
         for bi, t in f.calls():
-            if not t.get("indirect") and WRITE_PRIMS.search(t["callee"]) and "BufWriter<std::fs::File>" in t.get("callee_disp", "") + " ".join(
-                    a.get("pl", {}).get("ty", "") for a in t["args"]):
+            if t.get("indirect") or not WRITE_PRIMS.search(t["callee"]):
+                continue
+            tys = t.get("callee_disp", "") + " ".join(a.get("pl", {}).get("ty", "") for a in t["args"])
+            # the archive's output sink: a BufWriter (over the file or over a local wrapper of it), i.e. what the `writer` field holds
+            if re.search(r"BufWriter<", tys) and not re.search(r"BufWriter<(&mut )?(alloc::vec::Vec|std::io::Cursor|std::io::cursor::Cursor)", tys):
                 prim.add(f.key)
     rep.floor("C15-E0", len(prim), 3, "Archive bodies that write or flush the output file (add_part, serialize, close)")
     W = {k for k, v in G.transitive(lambda k: k in prim).items() if v}
@@ -57,6 +60,29 @@ def run(F, rep):
     bad = [k for k in callers if k in reach]
     rep.ob("C15-E0", "in the streaming pipeline the immediate add_part is reached only through flush_buffers", not bad,
            detail="direct callers inside the pipeline: %s" % bad, key="C15-E0 | add_part | who may call")
+
+    # E5: a local io::Write implementation placed under the archive's writer must be faithful: `write` returns the count
+    # the inner writer reported (a wrapper that returns buf.len() turns a short write at the end of the disk into success)
+    nw = 0
+    for f in F.funcs.values():
+        if f.crate not in ("ragc_core", "ragc_common", "ragc") or f.d.get("test") or f.d.get("trait") != "std::io::Write" or not f.key.endswith("::write"):
+            continue
+        nw += 1
+        exw = Exprs(f)
+        inner = [bi for bi, t in f.calls() if not t.get("indirect") and (t.get("decl", "").endswith("io::Write::write") or re.search(r"io::Write>::write$|::write$", t["callee"]))]
+        oks = []
+        for b in f.blocks:
+            for s_ in b["stmts"]:
+                if s_["k"] == "assign" and s_["pl"]["l"] == 0 and not s_["pl"]["p"]:
+                    e = exw.rvalue(s_["rv"])
+                    if isinstance(e, tuple) and e[0] == "agg" and e[1].endswith("Result::Ok"):
+                        oks.append(dict(e[2]).get("0"))
+        faithful = bool(inner) and bool(oks) and all(contains(v, lambda x: isinstance(x, tuple) and x[0] == "call" and (x[1].endswith("::write") or "Try" in x[1] or "branch" in x[1])) or
+                                                       (isinstance(v, tuple) and v[0] == "var") for v in oks) and \
+            not any(contains(v, lambda x: isinstance(x, tuple) and x[0] == "call" and x[1].endswith("::len")) for v in oks)
+        rep.ob("C15-E5", "%s returns the byte count its inner writer reported" % f.key, faithful,
+               detail="Ok values: %s; inner write calls: %d" % ([fmt(v)[:60] for v in oks], len(inner)), site="%s:%d" % (f.file, f.line_lo), key="C15-E5 | %s | faithful count" % f.key)
+    rep.stat("local_write_impls", nw)
 
     # E1: every call to a writer propagates its result
     n_sites = 0
